@@ -14,6 +14,9 @@ MNCH = ALPHA + DIG + b'_'
 SUFCH = ALPHA + DIG + b'-/.'
 
 
+KEYWORDS = [b"DEFault", b"MINimum", b"MAXimum", b"UP", b"DOWN", b"ON", b"OFF", b"INFinity", b"NINFinity", b"NAN"]
+
+
 class Gen:
     def __init__(self, rng):
         self.r = rng
@@ -65,7 +68,13 @@ class Gen:
         k = self.r.choice(['chr', 'dec', 'decsuf', 'nondec', 'str', 'blk', 'expr'])
         self.kinds[k] = self.kinds.get(k, 0) + 1
         r = self.r
-        if k == 'chr': return ("chr", self.mnemonic())
+        if k == 'chr':
+            if r.random() < 0.3:        # the library's own keywords, in any spelling, also with the optional-1 suffix of HEADER matching
+                w = r.choice(KEYWORDS)
+                w = r.choice([w, w.upper(), w.lower(), bytes(c for c in w if not (97 <= c <= 122))])
+                if r.random() < 0.15: w += r.choice([b"1", b"1", b"2", b"01"])
+                return ("chr", w[:12])
+            return ("chr", self.mnemonic())
         if k == 'dec': return ("dec", self.number())
         if k == 'decsuf':
             n = self.number(); w = self.ws(0, 2)
